@@ -18,6 +18,7 @@ type scope struct {
 	inOld     bool
 	world     int // world index "W" refers to
 	nq        int
+	pkg       *ssa.Package // package whose constants / variables are in scope (callee contracts)
 }
 
 func newScope() *scope { return &scope{vars: map[string]Val{}, extra: map[string]Val{}} }
@@ -29,7 +30,7 @@ func (s *scope) addVars(m map[string]Val) {
 }
 
 func (s *scope) child() *scope {
-	n := &scope{vars: map[string]Val{}, extra: s.extra, oldHeap: s.oldHeap, oldWorlds: s.oldWorlds, inOld: s.inOld, world: s.world, nq: s.nq}
+	n := &scope{vars: map[string]Val{}, extra: s.extra, oldHeap: s.oldHeap, oldWorlds: s.oldWorlds, inOld: s.inOld, world: s.world, nq: s.nq, pkg: s.pkg}
 	for k, v := range s.vars {
 		n.vars[k] = v
 	}
@@ -129,11 +130,26 @@ func (x *Exec) lookupIdent(st *State, fr *Frame, name string, sc *scope) (Val, e
 	if v, ok := x.specConsts[name]; ok {
 		return v, nil
 	}
+	if name == "blockheight" {
+		x.D.DeclareFun("blockheight", nil, SInt)
+		return Val{T: Term{"blockheight", SInt}, Typ: types.Typ[types.Int64]}, nil
+	}
 	// package-level constants / variables of the function's package
+	pkg := sc.pkg
 	if fr != nil && fr.fn.Pkg != nil {
-		if m := fr.fn.Pkg.Members[name]; m != nil {
+		pkg = fr.fn.Pkg
+	}
+	if pkg != nil {
+		if m := pkg.Members[name]; m != nil {
 			if nc, ok := m.(*ssa.NamedConst); ok {
 				return x.constVal(nc.Value), nil
+			}
+			if g, ok := m.(*ssa.Global); ok && st != nil {
+				gv := x.val(st, fr, g)
+				t, ct, err := x.loadLV(x.heapFor(st, sc), x.lvalOf(gv))
+				if err == nil {
+					return Val{T: t, Typ: ct}, nil
+				}
 			}
 		}
 	}
@@ -205,6 +221,8 @@ func (x *Exec) evalSpec(st *State, fr *Frame, e Expr, sc *scope) (Val, error) {
 	switch e := e.(type) {
 	case EInt:
 		return Val{T: IntLitStr(e.V), Typ: types.Typ[types.UntypedInt]}, nil
+	case EReal:
+		return Val{T: Term{e.V, SReal}, Typ: types.Typ[types.Float64]}, nil
 	case EStr:
 		return Val{T: x.S.StrLit(e.V), Typ: types.Typ[types.String]}, nil
 	case EBool:
@@ -587,6 +605,33 @@ func (x *Exec) evalCall(st *State, fr *Frame, e ECall, sc *scope) (Val, error) {
 			return Val{T: x.bytesOfIn(x.heapFor(st, sc), args[0].T)}, nil
 		}
 		return Val{}, fmt.Errorf("bytes() of %s", args[0].T.Sort)
+	case "aserror":
+		// aserror(x): x converted to the error interface, exactly as the compiler boxes it at a call
+		if args[0].T.Sort == SIface {
+			return args[0], nil
+		}
+		if args[0].Typ == nil || st == nil {
+			return Val{}, fmt.Errorf("aserror(): static type unknown")
+		}
+		return x.makeIface(st, args[0], args[0].Typ, types.Universe.Lookup("error").Type()), nil
+	case "payload":
+		// payload(x): the statically known dynamic value inside an interface value
+		if args[0].T.Sort == SIface && args[0].Dyn != nil {
+			return *args[0].Dyn, nil
+		}
+		return Val{}, fmt.Errorf("payload(): dynamic value of the interface is not statically known")
+	case "ncalls":
+		// ncalls("pattern"): number of calls made so far on this path to callees matching the pattern
+		if lit, ok := e.Args[0].(EStr); ok && st != nil {
+			n := 0
+			for k, v := range st.callCounts {
+				if strings.HasPrefix(k, "n:") && matchCallee(lit.V, k[2:]) {
+					n += v
+				}
+			}
+			return Val{T: IntLit(int64(n))}, nil
+		}
+		return Val{}, fmt.Errorf("ncalls needs a string literal")
 	case "bytesofstr":
 		// content of []byte(s)
 		x.D.DeclareFun("bytes.ofstr", []string{SStr}, SBytes)
